@@ -269,13 +269,19 @@ Qed.
 
 Lemma cast_flt : forall a b,
   wf_cell a -> wf_cell b -> numeric (ckind a) = true -> numeric (ckind b) = true ->
-  (ckind a = KFlt \/ ckind b = KFlt) ->
+  (ckind a = KFlt \/ ckind b = KFlt) -> conv_ok a b = true ->
   (cast KFlt 8 a = cast KFlt 8 b <-> veq a b = true).
 Proof.
-  intros a b Ha Hb Na Nb Hf. unfold cast, veq, cell_val.
+  intros a b Ha Hb Na Nb Hf Hc. unfold cast, veq, cell_val. unfold conv_ok in Hc.
   destruct (ckind a) eqn:Ka; destruct (ckind b) eqn:Kb; simpl in Na, Nb; try discriminate;
-    try (destruct Hf; discriminate); simpl val_eqb; rewrite Z.eqb_eq; apply le_bytes8_inj;
-    try apply f64_of_int_range; try (apply flt_of_bytes_range; assumption).
+    try (destruct Hf; discriminate); simpl val_eqb.
+  - apply Bool.eqb_prop in Hc. rewrite <- Hc. rewrite Z.eqb_eq. apply le_bytes8_inj.
+    + apply f64_of_int_range.
+    + apply flt_of_bytes_range; assumption.
+  - apply Bool.eqb_prop in Hc. rewrite <- Hc. rewrite Z.eqb_eq. apply le_bytes8_inj.
+    + apply flt_of_bytes_range; assumption.
+    + apply f64_of_int_range.
+  - rewrite Z.eqb_eq. apply le_bytes8_inj; apply flt_of_bytes_range; assumption.
 Qed.
 
 (* strings *)
@@ -367,11 +373,11 @@ Proof.
 Qed.
 
 (* the pair of casts of the repaired n-n comparison: equal bytes iff equal values, and equal lengths *)
-Lemma cast_pair_spec : forall a b, wf_cell a -> wf_cell b -> compat a b = true ->
+Lemma cast_pair_spec : forall a b, wf_cell a -> wf_cell b -> compat a b = true -> conv_ok a b = true ->
   (fst (cast_pair (a, b)) = snd (cast_pair (a, b)) <-> veq a b = true) /\
   length (fst (cast_pair (a, b))) = length (snd (cast_pair (a, b))).
 Proof.
-  intros a b Ha Hb Hc. unfold cast_pair, compat in *.
+  intros a b Ha Hb Hc Hk. unfold cast_pair, compat in *.
   destruct (wf_cell_inv a Ha) as [_ [_ Ta]]. destruct (wf_cell_inv b Hb) as [_ [_ Tb]].
   destruct (ckind a) eqn:Ka; destruct (ckind b) eqn:Kb; simpl in Hc; try discriminate; cbn [promote fst snd].
   - split.
@@ -393,7 +399,8 @@ Proof.
     + rewrite !cast_length; auto; try (intros; discriminate).
 Qed.
 
-Definition good_pair (p : cell * cell) : Prop := wf_cell (fst p) /\ wf_cell (snd p) /\ compat (fst p) (snd p) = true.
+Definition good_pair (p : cell * cell) : Prop :=
+  wf_cell (fst p) /\ wf_cell (snd p) /\ compat (fst p) (snd p) = true /\ conv_ok (fst p) (snd p) = true.
 
 (* the repaired n-n comparison decides equality of the key tuples by value *)
 Lemma nn_match_pairs : forall l, (forall p, In p l -> good_pair p) ->
@@ -403,13 +410,13 @@ Proof.
   intros l Hg.
   assert (SL : same_lengths (map fst (map cast_pair l)) (map snd (map cast_pair l))).
   { induction l as [|p l IH]; [constructor|]. simpl. constructor.
-    - destruct p as [a b]. destruct (Hg (a, b) (or_introl eq_refl)) as [Ha [Hb Hc]].
-      apply (cast_pair_spec a b Ha Hb Hc).
+    - destruct p as [a b]. destruct (Hg (a, b) (or_introl eq_refl)) as [Ha [Hb [Hc Hk]]].
+      apply (cast_pair_spec a b Ha Hb Hc Hk).
     - apply IH. intros q Hq. apply Hg. right. assumption. }
   assert (E : map fst (map cast_pair l) = map snd (map cast_pair l) <-> forallb (fun p => veq (fst p) (snd p)) l = true).
   { clear SL. induction l as [|p l IH]; [simpl; split; reflexivity|].
-    destruct p as [a b]. destruct (Hg (a, b) (or_introl eq_refl)) as [Ha [Hb Hc]].
-    destruct (cast_pair_spec a b Ha Hb Hc) as [Hv _].
+    destruct p as [a b]. destruct (Hg (a, b) (or_introl eq_refl)) as [Ha [Hb [Hc Hk]]].
+    destruct (cast_pair_spec a b Ha Hb Hc Hk) as [Hv _].
     specialize (IH (fun q Hq => Hg q (or_intror Hq))).
     simpl map. simpl forallb. rewrite andb_true_iff. split; intro H.
     - injection H as H1 H2. split; [apply Hv; assumption|apply IH; assumption].
